@@ -300,6 +300,25 @@ func invcdfReplay(in io.Reader, raw bool, args []string) (*Summary, error) {
 				break
 			}
 		}
+		// a caller-supplied source whose first uniforms are exactly 0 (a legal rand.Source): the rejected draws are replaced
+		// from the SAME source, so the draw is still a function of the source alone - equal sources, equal draws, = InvCDF(u)
+		{
+			mk := func() *rand.Rand { return rand.New(&zeroFirst{inner: rand.NewSource(baseSeed + 23), zeros: 2}) }
+			za, zb, zc := mk(), mk(), mk()
+			ga, gb := stats.Rand(d), stats.Rand(d)
+			for k := 0; k < 3; k++ {
+				a, b := ga(za), gb(zb)
+				y := zc.Float64()
+				for y == 0 {
+					y = zc.Float64()
+				}
+				sum.Checks++
+				if w := inv(y); math.Float64bits(a) != math.Float64bits(b) || math.Float64bits(a) != math.Float64bits(w) {
+					sum.viol("Rand-deterministic", c, "source starting with zeros, draw %d: %v and %v from equal sources, InvCDF(next non-zero uniform %v)=%v", k, a, b, y, w)
+					break
+				}
+			}
+		}
 		// one generator driven by two identically seeded sources in turn: each source gets its own deterministic sequence
 		ra, rb, rc := rand.New(rand.NewSource(baseSeed+11)), rand.New(rand.NewSource(baseSeed+11)), rand.New(rand.NewSource(baseSeed+11))
 		gen, ref := stats.Rand(d), stats.Rand(d)
@@ -371,6 +390,23 @@ func invcdfReplay(in io.Reader, raw bool, args []string) (*Summary, error) {
 			sum.Checks++
 			if !(worst <= band) {
 				sum.viol("Rand-distribution", json.RawMessage(`{"builtin":"rand"}`), "%+v: Kolmogorov distance %.5f of %d draws exceeds the DKW band %.5f", d, worst, N, band)
+			}
+			// the optional source left out (nil: the default global source): the same distribution
+			const M = 20000
+			bandM := math.Sqrt(math.Log(2e9) / (2 * M))
+			ys := make([]float64, M)
+			for i := range ys {
+				ys[i] = gen(nil)
+			}
+			sort.Float64s(ys)
+			worst = 0
+			for i, x := range ys {
+				F := d.CDF(x)
+				worst = math.Max(worst, math.Max(float64(i)/M-F, F-float64(i+1)/M))
+			}
+			sum.Checks++
+			if !(worst <= bandM) {
+				sum.viol("Rand-distribution", json.RawMessage(`{"builtin":"rand-nil"}`), "%+v with a nil source: Kolmogorov distance %.5f of %d draws exceeds the DKW band %.5f", d, worst, M, bandM)
 			}
 		}
 	}()
@@ -461,3 +497,18 @@ func invcdfReplay(in io.Reader, raw bool, args []string) (*Summary, error) {
 	}()
 	return sum, err
 }
+
+// zeroFirst is a rand.Source that returns 0 (so Float64 gives exactly 0) a few times before handing over to inner.
+type zeroFirst struct {
+	inner rand.Source
+	zeros int
+}
+
+func (z *zeroFirst) Int63() int64 {
+	if z.zeros > 0 {
+		z.zeros--
+		return 0
+	}
+	return z.inner.Int63()
+}
+func (z *zeroFirst) Seed(s int64) { z.inner.Seed(s) }
